@@ -225,6 +225,7 @@ func runC07(c *report.Ctx) {
 	checkSharedState(c)
 	c.Clause("5 no lock held by hand across a panic")
 	checkManualLockRegions(c, sites)
+	checkLockPairing(c)
 }
 
 // reachableSync2: from background roots, following go statements too (a goroutine started by a
